@@ -6,11 +6,11 @@ import PdbVerif.Gen.Str
 import PdbVerif.Gen.Score
 import PdbVerif.Gen.Mat
 
-namespace Driver
-open Lean
+namespace Driver.ModelZ
+open Lean Driver
 
-def modelOp (op : String) (j : Json) : Except String (Option Json) := do
-  match op with
+def op (name : String) (j : Json) : Except String (Option Json) := do
+  match name with
   | "capri" =>
     let f ← jRat j "f"; let l ← jRat j "l"; let i ← jRat j "i"
     pure (some (exceptJ strJ (Gen.compute_CapriClass f l i Gen.compute_CapriClass_system_default)))
@@ -19,4 +19,4 @@ def modelOp (op : String) (j : Json) : Except String (Option Json) := do
     pure (some (exceptJ ratJ (Gen.compute_DockQScore Py.toDouble f l i d1 d2)))
   | _ => pure none
 
-end Driver
+end Driver.ModelZ
